@@ -71,6 +71,21 @@ static int yearOfEpoch(int64_t e) {
   int64_t m = mp + (mp < 10 ? 3 : -9);
   return (int)(y + (m <= 2));
 }
+static void civilFromEpoch(int64_t e, int& y, int& mo, int& d, int& h, int& mi, int& s) {
+  int64_t days = e >= 0 ? e / 86400 : -((-e + 86399) / 86400);
+  int64_t sec = e - days * 86400;
+  h = (int)(sec / 3600); mi = (int)(sec / 60 % 60); s = (int)(sec % 60);
+  int64_t z = days + 10957 + 719468;
+  int64_t era = (z >= 0 ? z : z - 146096) / 146097;
+  int64_t doe = z - era * 146097;
+  int64_t yoe = (doe - doe / 1460 + doe / 36524 - doe / 146096) / 365;
+  int64_t yy = yoe + era * 400;
+  int64_t doy = doe - (365 * yoe + yoe / 4 - yoe / 100);
+  int64_t mp = (5 * doy + 2) / 153;
+  d = (int)(doy - (153 * mp + 2) / 5 + 1);
+  mo = (int)(mp < 10 ? mp + 3 : mp - 9);
+  y = (int)(yy + (mo <= 2));
+}
 static int64_t epochOfYearStart(int y) {  // seconds from 2000-01-01 to y-01-01 (UTC)
   int64_t yy = y - 1;
   int64_t era = (yy >= 0 ? yy : yy - 399) / 400;
@@ -148,10 +163,24 @@ static Ans ask(const TimeZone& tz, const Query& q) {
   return a;
 }
 
-// --- poison-filled storage
-template <size_t N> struct Storage {
-  alignas(16) unsigned char mem[N];
-  void poison(uint8_t b) { memset(mem, b, N); }
+// --- poison-filled storage. Heap blocks of exactly the object's size, so that under ASan an access
+// past the end of a processor / manager hits a redzone, filled with a seed-drawn byte before
+// placement construction, so that nothing depends on what the allocator left behind.
+struct Storage {
+  unsigned char* mem = nullptr;
+  size_t size = 0;
+  Storage() {}
+  ~Storage() { release(); }
+  Storage(const Storage&) = delete;
+  Storage& operator=(const Storage&) = delete;
+  void release() { free(mem); mem = nullptr; size = 0; }
+  unsigned char* fresh(size_t n, uint8_t poison) {
+    release();
+    mem = (unsigned char*)malloc(n);
+    size = n;
+    memset(mem, poison, n);
+    return mem;
+  }
 };
 
 struct ProcShadow {  // coverage bookkeeping only, never an oracle
@@ -163,44 +192,43 @@ struct ProcShadow {  // coverage bookkeeping only, never an oracle
 };
 
 template <class P> struct ProcSlot {
-  Storage<sizeof(P)> st;
+  Storage st;
   P* p = nullptr;
   ProcShadow sh;
-  void construct(uint8_t poison) { st.poison(poison); p = new (st.mem) P(); sh.reset(); }
-  void drop() { p = nullptr; sh.reset(); }
+  void construct(uint8_t poison) { p = new (st.fresh(sizeof(P), poison)) P(); sh.reset(); }
+  void drop() { p = nullptr; sh.reset(); st.release(); }
 };
 
 struct MgrSlot {
   bool ext = false;
   int size = 0;
   ZoneManager* base = nullptr;
-  Storage<sizeof(ExtendedZoneManager<4>) + sizeof(BasicZoneManager<4>)> st;
+  Storage st;
   std::vector<const void*> registry;   // must outlive the manager
   // shadow of the round-robin cache (coverage bookkeeping only)
   const void* slots[4];
   ProcShadow slotSh[4];
   int cur = 0;
-  void drop() { base = nullptr; size = 0; registry.clear(); }
+  void drop() { base = nullptr; size = 0; registry.clear(); st.release(); }
   void construct(bool isExt, int sz, uint8_t poison) {
     ext = isExt; size = sz; cur = 0;
     for (int i = 0; i < 4; i++) { slots[i] = nullptr; slotSh[i].reset(); }
-    st.poison(poison);
     uint16_t n = (uint16_t)registry.size();
     if (ext) {
       const extended::ZoneInfo* const* r = (const extended::ZoneInfo* const*)(registry.empty() ? nullptr : &registry[0]);
       switch (sz) {
-        case 1: base = new (st.mem) ExtendedZoneManager<1>(n, r); break;
-        case 2: base = new (st.mem) ExtendedZoneManager<2>(n, r); break;
-        case 3: base = new (st.mem) ExtendedZoneManager<3>(n, r); break;
-        default: base = new (st.mem) ExtendedZoneManager<4>(n, r); size = 4; break;
+        case 1: base = new (st.fresh(sizeof(ExtendedZoneManager<1>), poison)) ExtendedZoneManager<1>(n, r); break;
+        case 2: base = new (st.fresh(sizeof(ExtendedZoneManager<2>), poison)) ExtendedZoneManager<2>(n, r); break;
+        case 3: base = new (st.fresh(sizeof(ExtendedZoneManager<3>), poison)) ExtendedZoneManager<3>(n, r); break;
+        default: base = new (st.fresh(sizeof(ExtendedZoneManager<4>), poison)) ExtendedZoneManager<4>(n, r); size = 4; break;
       }
     } else {
       const basic::ZoneInfo* const* r = (const basic::ZoneInfo* const*)(registry.empty() ? nullptr : &registry[0]);
       switch (sz) {
-        case 1: base = new (st.mem) BasicZoneManager<1>(n, r); break;
-        case 2: base = new (st.mem) BasicZoneManager<2>(n, r); break;
-        case 3: base = new (st.mem) BasicZoneManager<3>(n, r); break;
-        default: base = new (st.mem) BasicZoneManager<4>(n, r); size = 4; break;
+        case 1: base = new (st.fresh(sizeof(BasicZoneManager<1>), poison)) BasicZoneManager<1>(n, r); break;
+        case 2: base = new (st.fresh(sizeof(BasicZoneManager<2>), poison)) BasicZoneManager<2>(n, r); break;
+        case 3: base = new (st.fresh(sizeof(BasicZoneManager<3>), poison)) BasicZoneManager<3>(n, r); break;
+        default: base = new (st.fresh(sizeof(BasicZoneManager<4>), poison)) BasicZoneManager<4>(n, r); size = 4; break;
       }
     }
   }
@@ -343,16 +371,14 @@ void TzDevice::buildRegistry(MgrSlot& m, const std::vector<std::string>& t) {
 
 Ans TzDevice::fresh(const Desc& d, const Query& q, uint8_t pz) {
   if (isBasic(d.kind)) {
-    Storage<sizeof(BasicZoneProcessor)> st;
-    st.poison(pz);
-    BasicZoneProcessor* p = new (st.mem) BasicZoneProcessor((const basic::ZoneInfo*)d.zi);
+    Storage st;
+    BasicZoneProcessor* p = new (st.fresh(sizeof(BasicZoneProcessor), pz)) BasicZoneProcessor((const basic::ZoneInfo*)d.zi);
     TimeZone tz = TimeZone::forZoneInfo((const basic::ZoneInfo*)d.zi, p);
     return ask(tz, q);
   }
   if (isExt(d.kind)) {
-    Storage<sizeof(ExtendedZoneProcessor)> st;
-    st.poison(pz);
-    ExtendedZoneProcessor* p = new (st.mem) ExtendedZoneProcessor((const extended::ZoneInfo*)d.zi);
+    Storage st;
+    ExtendedZoneProcessor* p = new (st.fresh(sizeof(ExtendedZoneProcessor), pz)) ExtendedZoneProcessor((const extended::ZoneInfo*)d.zi);
     TimeZone tz = TimeZone::forZoneInfo((const extended::ZoneInfo*)d.zi, p);
     return ask(tz, q);
   }
@@ -367,7 +393,9 @@ static const char* argClass(const Query& q, int startYear, int untilYear) {
   if (q.kind == "print" || q.kind == "prints" || q.kind == "zid") return "none";
   if (q.byEpoch() && q.e == LocalDate::kInvalidEpochSeconds) return "sentinel";
   int y = q.year();
-  if (q.byComponents() && (q.mo < 1 || q.mo > 12 || q.d < 1 || q.d > 31 || q.h > 23 || q.mi > 59 || q.s > 59))
+  // mirrors the library's own definition of an invalid component (24:00:00 is a valid LocalTime)
+  if (q.byComponents() && (q.mo < 1 || q.mo > 12 || q.d < 1 || q.d > 31 || q.h > 24 || q.mi > 59 || q.s > 59
+      || (q.h == 24 && (q.mi != 0 || q.s != 0))))
     return "badcomp";
   if (y < startYear - 1) return y >= startYear - 2 ? "below-edge" : "below";
   if (y == startYear - 1) return "first";
@@ -776,10 +804,11 @@ bool execTz(const Trace& tr, Verdict& v, Coverage& cov, bool& nontrivial, Bitmap
     if (o.armC09) {
       if ((t[0] == "CFG" && t.size() > 1 && t[1] == "CLOCK") || t[0] == "REF") { clockDev.configure(t); continue; }
       if (clockDev.exec(t, (int)i, v, cov)) {
-        if (t[0] != "REBOOT") continue;   // REBOOT goes to both parts
+        if (t[0] != "REBOOT") { ubAfterOp(v, (int)i, tr.lines[i]); continue; }   // REBOOT goes to both parts
       }
     }
     dev.exec(t, (int)i, v, cov, bm);
+    ubAfterOp(v, (int)i, tr.lines[i]);
   }
   nontrivial = dev.sawNontrivial;
   return true;
@@ -946,8 +975,7 @@ struct Gen {
       int y, mo, d, h, mi, s;
       if (e == LocalDate::kInvalidEpochSeconds) { y = 0; mo = 0; d = 0; h = 0; mi = 0; s = 0; }
       else {
-        LocalDateTime ldt = LocalDateTime::forEpochSeconds((acetime_t)e);   // simulator-side use of a pure helper
-        y = ldt.year(); mo = ldt.month(); d = ldt.day(); h = ldt.hour(); mi = ldt.minute(); s = ldt.second();
+        civilFromEpoch(e, y, mo, d, h, mi, s);   // the simulator's own conversion: no repository code in the generator
       }
       if (rng.chance(1, 6)) { h = (int)rng.range(0, 3); mi = (int)rng.range(0, 59); }   // around typical gaps / overlaps
       if (rng.chance(1, 14)) {   // invalid components
